@@ -131,13 +131,14 @@ def get_ranges(headervalue, content_length):
             if (start, stop + 1) not in result:
                 result.append((start, stop + 1))
         else:
-            if not stop:
+            if not stop.isdigit():
                 # See rfc quote above.
                 return None
-            # Negative subscript (last N bytes)
+            # Last N bytes: N is bounded by the length and "-0" selects nothing
+            start = max(content_length - int(stop), 0)
             # Prevent duplicate ranges. See Issue #59
-            if (content_length - int(stop), content_length) not in result:
-                result.append((content_length - int(stop), content_length))
+            if start < content_length and (start, content_length) not in result:
+                result.append((start, content_length))
 
     # Can we satisfy the requested Range?
     # If we have an exceedingly high standard deviation
